@@ -36,6 +36,37 @@ func (x *Exec) initGhosts() {
 			x.ghostTy[g.Name] = env.resolveType(g.Ty)
 		}()
 	}
+	// declare every uninterpreted spec function up front (raw axioms may mention any of them)
+	var names []string
+	for n, pd := range x.db.Pures {
+		if pd.Body == nil {
+			names = append(names, n)
+		}
+	}
+	sort.Strings(names)
+	for _, n := range names {
+		pd := x.db.Pures[n]
+		func() {
+			defer func() {
+				if r := recover(); r != nil {
+					panic(fmt.Sprintf("uninterp %s: %v", n, r))
+				}
+			}()
+			se := &SpecEnv{x: x, st: x.scratchState(), vars: map[string]Val{}, pkg: x.L.typesPkg(pd.Pkg), what: "declaration of " + n}
+			call := &ECall{Fn: n}
+			for i, p := range pd.Params {
+				ty := se.resolveType(p.Ty)
+				vn := fmt.Sprintf("$a%d", i)
+				if ty.G != nil {
+					se.vars[vn] = x.zeroVal(ty.G)
+				} else {
+					se.vars[vn] = Val{T: "0", M: ty.M}
+				}
+				call.Args = append(call.Args, &EIdent{vn})
+			}
+			se.eval(call)
+		}()
+	}
 	if _, ok := x.ghostTy["held"]; !ok {
 		x.ghostTy["held"] = &STy{M: &MTy{Kind: "map", K: &STy{M: mathInt()}, V: &STy{M: mathInt()}}}
 	}
